@@ -113,11 +113,11 @@ axiom('rsqrt.at', forall([v_, i_], T.rat(rsqrt(v_), i_) == T.sqrt(T.rat(v_, i_))
 axiom('minv.shape', forall([A_], z3.And(mrows(minv(A_)) == mrows(A_), mcols(minv(A_)) == mcols(A_)), [minv(A_)]),
       ['minv'], 'numpy')
 # row-wise reading of the vectorised expressions (A4)
-axiom('matvec.at', forall([A_, v_, i_], T.rat(matvec(A_, v_), i_) == vdot(mrow(A_, i_), v_), [T.rat(matvec(A_, v_), i_)]),
+axiom('matvec.at', forall([A_, v_, i_], z3.Implies(z3.And(0 <= i_, i_ < mrows(A_)), T.rat(matvec(A_, v_), i_) == vdot(mrow(A_, i_), v_)), [T.rat(matvec(A_, v_), i_)]),
       ['matvec'], 'algebra')
-axiom('mdot.row', forall([A_, B_, i_], mrow(mdot(A_, B_), i_) == vecmat(mrow(A_, i_), B_), [mrow(mdot(A_, B_), i_)]),
+axiom('mdot.row', forall([A_, B_, i_], z3.Implies(z3.And(0 <= i_, i_ < mrows(A_)), mrow(mdot(A_, B_), i_) == vecmat(mrow(A_, i_), B_)), [mrow(mdot(A_, B_), i_)]),
       ['mdot'], 'algebra')
-axiom('rowsum.mmul', forall([A_, B_, i_], T.rat(rowsum(mmul(A_, B_)), i_) == vdot(mrow(A_, i_), mrow(B_, i_)),
+axiom('rowsum.mmul', forall([A_, B_, i_], z3.Implies(z3.And(0 <= i_, i_ < mrows(A_)), T.rat(rowsum(mmul(A_, B_)), i_) == vdot(mrow(A_, i_), mrow(B_, i_))),
                             [T.rat(rowsum(mmul(A_, B_)), i_)]), ['rowsum'], 'algebra')
 # algebra used by the initial model (A3)
 axiom('matvec.zeros', forall([A_, d_], z3.Implies(mcols(A_) == d_, matvec(A_, zeros(d_)) == zeros(mrows(A_))),
@@ -248,23 +248,23 @@ axiom('where.at', forall([m_, k_], z3.Implies(z3.And(0 <= k_, k_ < T.bcnt(m_)),
                                                      T.bat(m_, iat(where(m_), k_)))), [iat(where(m_), k_)]),
       ['where'], 'numpy')
 axiom('iota.len', forall([d_], z3.Implies(d_ >= 0, ilen(iota(d_)) == d_), [iota(d_)]), ['iota'], 'numpy')
-axiom('iota.at', forall([d_, i_], iat(iota(d_), i_) == i_, [iat(iota(d_), i_)]), ['iota'], 'numpy')
+axiom('iota.at', forall([d_, i_], z3.Implies(z3.And(0 <= i_, i_ < d_), iat(iota(d_), i_) == i_), [iat(iota(d_), i_)]), ['iota'], 'numpy')
 mtake = F('mtake', Mat, ISeq, Mat)
 rtake = F('rtake', RSeq, ISeq, RSeq)
 atake = F('atake', ASeq, ISeq, ASeq)
 s_ = z3.Const('s', ASeq)
 axiom('mtake.shape', forall([A_, u_], z3.And(mrows(mtake(A_, u_)) == ilen(u_), mcols(mtake(A_, u_)) == mcols(A_)),
                             [mtake(A_, u_)]), ['mtake'], 'numpy')
-axiom('mtake.row', forall([A_, u_, i_], mrow(mtake(A_, u_), i_) == mrow(A_, iat(u_, i_)), [mrow(mtake(A_, u_), i_)]),
+axiom('mtake.row', forall([A_, u_, i_], z3.Implies(z3.And(0 <= i_, i_ < ilen(u_)), mrow(mtake(A_, u_), i_) == mrow(A_, iat(u_, i_))), [mrow(mtake(A_, u_), i_)]),
       ['mtake'], 'numpy')
 axiom('mtake.iota', forall([A_], mtake(A_, iota(mrows(A_))) == A_, [mtake(A_, iota(mrows(A_)))]), ['mtake'], 'numpy')
 axiom('rtake.len', forall([v_, u_], T.rlen(rtake(v_, u_)) == ilen(u_), [rtake(v_, u_)]), ['rtake'], 'numpy')
-axiom('rtake.at', forall([v_, u_, i_], T.rat(rtake(v_, u_), i_) == T.rat(v_, iat(u_, i_)), [T.rat(rtake(v_, u_), i_)]),
+axiom('rtake.at', forall([v_, u_, i_], z3.Implies(z3.And(0 <= i_, i_ < ilen(u_)), T.rat(rtake(v_, u_), i_) == T.rat(v_, iat(u_, i_))), [T.rat(rtake(v_, u_), i_)]),
       ['rtake'], 'numpy')
 axiom('rtake.where', forall([v_, m_], rtake(v_, where(m_)) == T.rsel(v_, m_), [rtake(v_, where(m_))]), ['rtake'],
       'numpy')
 axiom('atake.len', forall([s_, u_], T.alen(atake(s_, u_)) == ilen(u_), [atake(s_, u_)]), ['atake'], 'numpy')
-axiom('atake.at', forall([s_, u_, i_], T.aat(atake(s_, u_), i_) == T.aat(s_, iat(u_, i_)), [T.aat(atake(s_, u_), i_)]),
+axiom('atake.at', forall([s_, u_, i_], z3.Implies(z3.And(0 <= i_, i_ < ilen(u_)), T.aat(atake(s_, u_), i_) == T.aat(s_, iat(u_, i_))), [T.aat(atake(s_, u_), i_)]),
       ['atake'], 'numpy')
 msel = F('msel', Mat, BSeq, Mat)
 axiom('msel.where', forall([A_, m_], mtake(A_, where(m_)) == msel(A_, m_), [mtake(A_, where(m_))]), ['mtake'], 'numpy')
@@ -277,13 +277,13 @@ mouter = F('mouter', RSeq, RSeq, Mat)        # outer product u v'
 mcol = F('mcol', Mat, Int, RSeq)
 axiom('mrowmul.shape', forall([A_, v_], z3.And(mrows(mrowmul(A_, v_)) == mrows(A_), mcols(mrowmul(A_, v_)) == mcols(A_)),
                               [mrowmul(A_, v_)]), ['mrowmul'], 'numpy')
-axiom('rowsum.mrowmul', forall([A_, v_, i_], T.rat(rowsum(mrowmul(A_, v_)), i_) == vdot(mrow(A_, i_), v_),
+axiom('rowsum.mrowmul', forall([A_, v_, i_], z3.Implies(z3.And(0 <= i_, i_ < mrows(A_)), T.rat(rowsum(mrowmul(A_, v_)), i_) == vdot(mrow(A_, i_), v_)),
                                [T.rat(rowsum(mrowmul(A_, v_)), i_)]), ['mrowmul'], 'algebra')
 axiom('mouter.shape', forall([v_, w_], z3.And(mrows(mouter(v_, w_)) == T.rlen(v_), mcols(mouter(v_, w_)) == T.rlen(w_)),
                              [mouter(v_, w_)]), ['mouter'], 'numpy')
-axiom('rowsum.mouter', forall([v_, w_, i_], T.rat(rowsum(mouter(v_, w_)), i_) == T.rmul(T.rat(v_, i_), T.rsum(w_)),
+axiom('rowsum.mouter', forall([v_, w_, i_], z3.Implies(z3.And(0 <= i_, i_ < T.rlen(v_)), T.rat(rowsum(mouter(v_, w_)), i_) == T.rmul(T.rat(v_, i_), T.rsum(w_))),
                               [T.rat(rowsum(mouter(v_, w_)), i_)]), ['mouter'], 'algebra')
-axiom('rowsum.mscale', forall([x_, A_, i_], T.rat(rowsum(mscale(x_, A_)), i_) == T.rmul(x_, T.rsum(mrow(A_, i_))),
+axiom('rowsum.mscale', forall([x_, A_, i_], z3.Implies(z3.And(0 <= i_, i_ < mrows(A_)), T.rat(rowsum(mscale(x_, A_)), i_) == T.rmul(x_, T.rsum(mrow(A_, i_)))),
                               [T.rat(rowsum(mscale(x_, A_)), i_)]), ['rowsum'], 'algebra')
 axiom('vdot.len1', forall([v_, w_], z3.Implies(z3.And(T.rlen(v_) == 1, T.rlen(w_) == 1),
                                                vdot(v_, w_) == T.rmul(T.rat(v_, 0), T.rat(w_, 0))), [vdot(v_, w_)]),
@@ -296,7 +296,7 @@ mat11 = F('mat11', Real, Mat)
 from .libcalls import row1, mcol as _mcol   # noqa
 axiom('col1', forall([v_], z3.And(mrows(col1(v_)) == T.rlen(v_), mcols(col1(v_)) == 1, _mcol(col1(v_), 0) == v_),
                      [col1(v_)]), ['col1'], 'numpy')
-axiom('col1.at', forall([v_, i_], mat_at(col1(v_), i_, 0) == T.rat(v_, i_), [mat_at(col1(v_), i_, 0)]), ['col1'], 'numpy')
+axiom('col1.at', forall([v_, i_], z3.Implies(z3.And(0 <= i_, i_ < T.rlen(v_)), mat_at(col1(v_), i_, 0) == T.rat(v_, i_)), [mat_at(col1(v_), i_, 0)]), ['col1'], 'numpy')
 axiom('mat11', forall([x_], z3.And(mrows(mat11(x_)) == 1, mcols(mat11(x_)) == 1, mat_at(mat11(x_), 0, 0) == x_),
                       [mat11(x_)]), ['mat11'], 'numpy')
 
@@ -448,7 +448,7 @@ lo_, hi_ = z3.Ints('lo hi')
 axiom('islice.len', forall([u_, lo_, hi_], z3.Implies(z3.And(0 <= lo_, lo_ <= hi_, hi_ <= ilen(u_)),
                                                       ilen(islice(u_, lo_, hi_)) == hi_ - lo_), [islice(u_, lo_, hi_)]),
       ['islice'], 'numpy')
-axiom('islice.at', forall([u_, lo_, hi_, i_], iat(islice(u_, lo_, hi_), i_) == iat(u_, lo_ + i_),
+axiom('islice.at', forall([u_, lo_, hi_, i_], z3.Implies(z3.And(0 <= i_, i_ < hi_ - lo_, 0 <= lo_, hi_ <= ilen(u_)), iat(islice(u_, lo_, hi_), i_) == iat(u_, lo_ + i_)),
                           [iat(islice(u_, lo_, hi_), i_)]), ['islice'], 'numpy')
 
 
@@ -490,11 +490,11 @@ icons = F('icons', Int, ISeq, ISeq)
 isum = F('isum', ISeq, Int)
 n_, q_, c_ = z3.Ints('n q c')
 axiom('ifull.len', forall([n_, q_], z3.Implies(n_ >= 0, ilen(ifull(n_, q_)) == n_), [ifull(n_, q_)]), ['ifull'], 'numpy')
-axiom('ifull.at', forall([n_, q_, i_], iat(ifull(n_, q_), i_) == q_, [iat(ifull(n_, q_), i_)]), ['ifull'], 'numpy')
+axiom('ifull.at', forall([n_, q_, i_], z3.Implies(z3.And(0 <= i_, i_ < n_), iat(ifull(n_, q_), i_) == q_), [iat(ifull(n_, q_), i_)]), ['ifull'], 'numpy')
 axiom('iaddprefix.len', forall([u_, k_, c_], ilen(iaddprefix(u_, k_, c_)) == ilen(u_), [iaddprefix(u_, k_, c_)]),
       ['iaddprefix'], 'numpy')
-axiom('iaddprefix.at', forall([u_, k_, c_, i_], iat(iaddprefix(u_, k_, c_), i_) ==
-                              iat(u_, i_) + z3.If(z3.And(0 <= i_, i_ < k_), c_, 0), [iat(iaddprefix(u_, k_, c_), i_)]),
+axiom('iaddprefix.at', forall([u_, k_, c_, i_], z3.Implies(z3.And(0 <= i_, i_ < ilen(u_)), iat(iaddprefix(u_, k_, c_), i_) ==
+                              iat(u_, i_) + z3.If(z3.And(0 <= i_, i_ < k_), c_, 0)), [iat(iaddprefix(u_, k_, c_), i_)]),
       ['iaddprefix'], 'numpy')
 axiom('icumsum.len', forall([u_], ilen(icumsum(u_)) == ilen(u_), [icumsum(u_)]), ['icumsum'], 'numpy')
 # running sums: first element, and the step  cumsum[i+1] = cumsum[i] + u[i+1]   (np.cumsum, A4)
@@ -540,7 +540,7 @@ axiom('mslice.shape', forall([A_, lo_, hi_], z3.Implies(z3.And(0 <= lo_, lo_ <= 
                                                         z3.And(mrows(mslice(A_, lo_, hi_)) == hi_ - lo_,
                                                                mcols(mslice(A_, lo_, hi_)) == mcols(A_))),
                             [mslice(A_, lo_, hi_)]), ['mslice'], 'numpy')
-axiom('mslice.row', forall([A_, lo_, hi_, i_], mrow(mslice(A_, lo_, hi_), i_) == mrow(A_, lo_ + i_),
+axiom('mslice.row', forall([A_, lo_, hi_, i_], z3.Implies(z3.And(0 <= i_, i_ < hi_ - lo_, 0 <= lo_, hi_ <= mrows(A_)), mrow(mslice(A_, lo_, hi_), i_) == mrow(A_, lo_ + i_)),
                           [mrow(mslice(A_, lo_, hi_), i_)]), ['mslice'], 'numpy')
 
 
@@ -552,12 +552,13 @@ for _nm, _rel in (('mgt01', lambda a, b: a > b), ('mge01', lambda a, b: a >= b),
     _f = F(_nm, Mat, Real, Mat)
     axiom(_nm + '.shape', forall([A_, x_], z3.And(mrows(_f(A_, x_)) == mrows(A_), mcols(_f(A_, x_)) == mcols(A_)),
                                  [_f(A_, x_)]), [_nm], 'numpy')
-    axiom(_nm + '.at', forall([A_, x_, i_, c_], mat_at(_f(A_, x_), i_, c_) ==
-                              z3.If(_rel(mat_at(A_, i_, c_), x_), z3.RealVal(1), z3.RealVal(0)),
-                              [mat_at(_f(A_, x_), i_, c_)]), [_nm], 'numpy')
+    axiom(_nm + '.at', forall([A_, x_, i_, c_], z3.Implies(
+        z3.And(0 <= i_, i_ < mrows(A_), 0 <= c_, c_ < mcols(A_)),
+        mat_at(_f(A_, x_), i_, c_) == z3.If(_rel(mat_at(A_, i_, c_), x_), z3.RealVal(1), z3.RealVal(0))),
+        [mat_at(_f(A_, x_), i_, c_)]), [_nm], 'numpy')
 axiom('mscale.at', forall([x_, A_, i_, c_], mat_at(mscale(x_, A_), i_, c_) == T.rmul(x_, mat_at(A_, i_, c_)),
                           [mat_at(mscale(x_, A_), i_, c_)]), ['mscale'], 'algebra')
-axiom('mdot.at', forall([A_, B_, i_, c_], mat_at(mdot(A_, B_), i_, c_) == vdot(mrow(A_, i_), mcol(B_, c_)),
+axiom('mdot.at', forall([A_, B_, i_, c_], z3.Implies(z3.And(0 <= i_, i_ < mrows(A_), 0 <= c_, c_ < mcols(B_)), mat_at(mdot(A_, B_), i_, c_) == vdot(mrow(A_, i_), mcol(B_, c_))),
                         [mat_at(mdot(A_, B_), i_, c_)]), ['mdot'], 'algebra')
 
 
@@ -580,3 +581,21 @@ def _np_round(lib, run, recv, args, kw):
     if isinstance(a, (Num, BoolV)):
         return Num(F('round_to', Real, Int, Real)(real(a), intterm(k)))
     raise Unsupported('np.round(%r)' % (a,))
+
+
+ishift = F('ishift', ISeq, Int, ISeq)          # u + c element-wise (index arrays)
+iconcat = F('iconcat', ISeq, ISeq, ISeq)
+iempty = F('iempty', ISeq)
+v2_ = z3.Const('v2', ISeq)
+axiom('ishift.len', forall([u_, k_], ilen(ishift(u_, k_)) == ilen(u_), [ishift(u_, k_)]), ['ishift'], 'numpy')
+axiom('ishift.at', forall([u_, k_, i_], z3.Implies(z3.And(0 <= i_, i_ < ilen(u_)), iat(ishift(u_, k_), i_) == iat(u_, i_) + k_), [iat(ishift(u_, k_), i_)]), ['ishift'],
+      'numpy')
+axiom('ishift.zero', forall([u_], ishift(u_, 0) == u_, [ishift(u_, 0)]), ['ishift'], 'numpy')
+axiom('iconcat.len', forall([u_, v2_], ilen(iconcat(u_, v2_)) == ilen(u_) + ilen(v2_), [iconcat(u_, v2_)]), ['iconcat'],
+      'numpy')
+axiom('iconcat.at', forall([u_, v2_, i_], iat(iconcat(u_, v2_), i_) == z3.If(i_ < ilen(u_), iat(u_, i_), iat(v2_, i_ - ilen(u_))),
+                           [iat(iconcat(u_, v2_), i_)]), ['iconcat'], 'numpy')
+axiom('iempty.len', ilen(iempty()) == 0, ['iempty'], 'numpy')
+axiom('iconcat.empty', forall([u_, v2_], z3.And(z3.Implies(ilen(v2_) == 0, iconcat(u_, v2_) == u_),
+                                                z3.Implies(ilen(u_) == 0, iconcat(u_, v2_) == v2_)), [iconcat(u_, v2_)]),
+      ['iconcat'], 'numpy')
